@@ -653,6 +653,11 @@ pub fn handle_xreadgroup(storage: &Arc<StorageEngine>, db: usize, parts: &[RespF
         }
     }
     
+    // COUNT 0 means "no limit", exactly like an absent COUNT
+    if count == Some(0) {
+        count = None;
+    }
+    
     // Parse keys and IDs
     if i >= parts.len() {
         return Ok(RespFrame::error("ERR syntax error"));
